@@ -129,3 +129,55 @@ func init() {
 		}}
 	}
 }
+
+// c09_singleton: as many members as vBuckets (T = N): every member's set is a single vBucket - member 1's is
+// {0}, the range whose bounds are both zero. The member streams it, acknowledgements move its position, the
+// next save stores it, a restart resumes from it.
+func init() {
+	scenarios["c09_singleton"] = func(raw json.RawMessage) *vrt.Scenario {
+		return &vrt.Scenario{Name: "c09_singleton", FreeChoices: true, NoTimerAlt: true, MaxSteps: 400000, Main: func() {
+			resetGlobals()
+			n := 1 + vrt.Choose(4, true, "vbuckets-and-members")
+			m := 1 + vrt.Choose(n, true, "member")
+			o := EnvOpts{Vbs: n, CheckpointType: "manual", MemberNumber: m, Total: n}
+			c := NewCluster(&o)
+			for vb := 0; vb < n; vb++ {
+				c.Append(uint16(vb), marker(1, 2), mut(1, "a"), mut(2, "b"))
+			}
+			e := NewEnv(c, o)
+			e.Cons.AutoAck = true
+			e.Stream.Open()
+			c.WaitIdle()
+			vrt.Quiesce()
+			mine := uint16(m - 1)
+			desc := fmt.Sprintf("member %d of %d on %d vBuckets (its set is {%d})", m, n, n, mine)
+			for vb := 0; vb < n; vb++ {
+				if c.StreamOpen(uint16(vb)) != (uint16(vb) == mine) {
+					vrt.Failf("%s: vb%d streamed = %v", desc, vb, c.StreamOpen(uint16(vb)))
+				}
+			}
+			if len(e.Cons.Events) != 2 {
+				vrt.Failf("%s: %d of 2 events delivered", desc, len(e.Cons.Events))
+			}
+			if tr, _ := e.Tracked(mine); tr != 2 {
+				vrt.Failf("%s: both events were acknowledged, the tracked position of vb%d is %d", desc, mine, tr)
+			}
+			e.Stream.Save()
+			if st, _ := e.StoredSeq(mine); st != 2 {
+				vrt.Failf("%s: both events were acknowledged and a save has run, the stored position of vb%d is %d", desc, mine, st)
+			}
+			c.KillAgents()
+			e.Cons.Disabled = true
+			n0 := len(c.Requests)
+			e2 := NewEnv(c, o)
+			e2.Stream.Open()
+			c.WaitIdle()
+			for _, r := range c.Requests[n0:] {
+				if r.Kind == "openstream" && r.Args[2] != 2 {
+					vrt.Failf("%s: after a restart vb%d was requested from %d, its position was 2", desc, r.Vb, r.Args[2])
+				}
+			}
+			vrt.SetOutcome(desc)
+		}}
+	}
+}
